@@ -37,10 +37,10 @@ package rang3
 //@ ghost func permB(i int) int
 //@ ghost func permBinv(i int) int
 //
-//@ func Flatten$3
+//@ func Flatten$min
 //@   pure
 //@   ensures result == ite(a < b, a, b)
-//@ func Flatten$4
+//@ func Flatten$max
 //@   pure
 //@   ensures result == ite(a > b, a, b)
 //
